@@ -231,12 +231,24 @@ def shape_of(t):
     return ("[" if t[0] == "S" else "(") + "".join(shape_of(c) for c in t[1]) + ("]" if t[0] == "S" else ")")
 
 
-def builder_circuit(t):
-    """The same circuit through CircuitBuilder (only for builder-expressible trees)."""
+def builder_circuit(t, rnd=None):
+    """The same circuit through CircuitBuilder (only for builder-expressible trees).  With `rnd`, the builder (and its
+    nested builders) are converted to text / circuits at random moments while they are still being filled: an intermediate
+    conversion must not change what the finished builder yields."""
     from pyimpspec import CircuitBuilder
+
+    tops = []
+
+    def peek(b):
+        if rnd is not None and rnd.random() < 0.3:
+            try:
+                (str if rnd.random() < 0.5 else (lambda x: x.to_circuit()))(rnd.choice([b] + tops))
+            except Exception:  # noqa: a half-built builder may not be convertible
+                pass
 
     def fill_b(b, node):
         for c in node[1]:
+            peek(b)
             if c[0] == "E":
                 b.add(build(c))
             elif c[0] == "S":
@@ -245,9 +257,11 @@ def builder_circuit(t):
             else:
                 with b.parallel() as p:
                     fill_b(p, c)
+            peek(b)
 
     if t[0] == "E":
         t = ("S", [t])
     with CircuitBuilder(parallel=(t[0] == "P")) as top:
+        tops.append(top)
         fill_b(top, t)
     return top.to_circuit()
